@@ -96,6 +96,24 @@ def run(chk, repo, tier):
     for rule_, construct, key, ok, detail, where in sub.obs:
         if rule_ == "C11.R1" and "decompress_" in construct and (rule_, construct, key) not in known:
             chk.ob("C04.R5", construct, f"canonical decoding [{rule_}] {key}", ok, detail, where)
+    # the subgroup gate is exact only if subgroup_check is is_inf([r]P) on a multiply that is scalar multiplication for
+    # *every* curve point (the keys that must be refused are exactly the points outside the subgroup): C17.R1 and the
+    # ladder schema of the optimized BLS12-381 multiply (C07.R3) re-stated
+    chk.rule("C04.R7", "the subgroup test refuses every point outside the subgroup: subgroup_check = is_inf([r]P) (C17.R1) and "
+                       "optimized_bls12_381.multiply is scalar multiplication on every curve point (C07.R3) re-stated", 4)
+    from . import C17, C07
+    for dep, keep in ((C17, lambda r, c: r == "C17.R1"), (C07, lambda r, c: r == "C07.R3" and "optimized_bls12_381" in c)):
+        subd = SubCheck()
+        errd = None
+        try:
+            dep.run(subd, repo, "quick")
+        except AnalysisError as e:
+            errd = e
+        for rule_, construct, key, ok, detail, where in subd.obs:
+            if keep(rule_, construct):
+                chk.ob("C04.R7", construct, f"[{rule_}] {key}", ok, detail, where)
+        if errd is not None and all(o[3] for o in subd.obs):
+            raise errd
     if tier == "thorough":
         mypy_cross_reference(chk, repo)
     chk.not_decided += ["implicit exceptions of builtins outside the modelled list (bytes +, len, set of bytes, zip)",
